@@ -516,6 +516,27 @@ func ruleRetryHelper(w *core.World, r *core.Report, name string) {
 // cut into functions. Everything the rules name keeps being one event.
 func init() {
 	core.Pinned = pinnedFunctions
+	// sizes are non-negative: a field (or an atomic counter field) that holds a size
+	core.NonNegative = func(v ssa.Value) bool {
+		name := ""
+		switch x := v.(type) {
+		case *ssa.Field:
+			name = core.FieldName(x)
+		case *ssa.UnOp:
+			if fa, ok := x.X.(*ssa.FieldAddr); ok && x.Op == token.MUL {
+				name = core.FieldName(fa)
+			}
+		case *ssa.Call:
+			if c := x.Common(); !c.IsInvoke() && len(c.Args) == 1 {
+				if f := c.StaticCallee(); f != nil && f.Name() == "Load" && f.Pkg != nil && f.Pkg.Pkg.Path() == "sync/atomic" {
+					if fa, ok := c.Args[0].(*ssa.FieldAddr); ok {
+						name = core.FieldName(fa)
+					}
+				}
+			}
+		}
+		return strings.Contains(strings.ToLower(name), "size")
+	}
 	core.InlinePolicy = func(call *ssa.Call, callee *ssa.Function) bool {
 		root := callee
 		for root.Parent() != nil {
